@@ -168,4 +168,76 @@ theorem process_ignores (c : Cfg) (snk : Snk) (mf : MaybeFrame) (be : Backend)
     | none => simp
     | some e => cases e <;> simp
 
+/-! ### whole sessions -/
+
+/-- the backend accesses a received frame is owed: one for a request that was received without error, whose
+    word size matches the attached memory and - for a read - whose answer fits; none otherwise -/
+def owedCalls (c : Cfg) (mf : MaybeFrame) : List Call :=
+  match mf.frame, mf.err with
+  | some blk, none =>
+    match blk.hdr with
+    | some (h, off) =>
+      if is_request h = true ∧ c.mem16 = decide (h.opts &&& 1 ≠ 0) then
+        if h.type = 0 then
+          (if (c.B - (c.F + 2 * off)) / unitOf c < h.bsize then [] else [readCall c h off])
+        else [writeCall c blk.raw h off]
+      else []
+    | none => []
+  | _, _ => []
+
+/-- one call of `regp_process` performs exactly the owed accesses, whatever the sink does -/
+theorem process_calls (c : Cfg) (snk : Snk) (mf : MaybeFrame) (be : Backend) :
+    (regp_process c snk mf be).2 = owedCalls c mf := by
+  simp only [regp_process, owedCalls]
+  cases hf : mf.frame with
+  | none => rfl
+  | some blk =>
+    cases he : mf.err with
+    | some e =>
+      simp only
+      cases hh : blk.hdr with
+      | none => cases e <;> rfl
+      | some p => obtain ⟨h, off⟩ := p; cases e <;> simp <;> split <;> rfl
+    | none =>
+      simp only
+      cases hh : blk.hdr with
+      | none => rfl
+      | some p =>
+        obtain ⟨h, off⟩ := p
+        simp only
+        by_cases hr : is_request h = true
+        · by_cases hw : c.mem16 = decide (h.opts &&& 1 ≠ 0)
+          · have hw' : (c.mem16 != decide (h.opts &&& 1 ≠ 0)) = false := by simp [hw]
+            simp only [hr, Bool.not_true, Bool.false_eq_true, ↓reduceIte, hw', true_and]
+            rw [if_pos hw]
+            by_cases ht : h.type = 0
+            · simp only [ht, ↓reduceIte, unitOf, readCall]
+              split <;> (split <;> rfl)
+            · simp only [ht, ↓reduceIte, writeCall]
+          · have hw' : (c.mem16 != decide (h.opts &&& 1 ≠ 0)) = true := by simpa using hw
+            simp only [hr, Bool.not_true, Bool.false_eq_true, ↓reduceIte, hw', true_and]
+            rw [if_neg hw]
+        · simp [hr]
+
+/-- the log of a whole session: frames handed to `regp_process` one after the other, the sink carried along -/
+def session (c : Cfg) : Snk → List (MaybeFrame × Backend) → Snk × List Call
+  | snk, [] => (snk, [])
+  | snk, (mf, be) :: rest =>
+    let r := regp_process c snk mf be
+    let (snk', log) := session c r.1.snk rest
+    (snk', r.2 ++ log)
+
+/-- over any sequence of received frames - requests, responses, meta messages, failed receptions, in any
+    order - the backend sees exactly the owed accesses, in order, each once -/
+theorem session_run (c : Cfg) : ∀ (frames : List (MaybeFrame × Backend)) (snk : Snk),
+    (session c snk frames).2 = frames.flatMap fun p => owedCalls c p.1 := by
+  intro frames
+  induction frames with
+  | nil => intro snk; rfl
+  | cons p rest ih =>
+    intro snk
+    obtain ⟨mf, be⟩ := p
+    simp only [session, List.flatMap_cons]
+    rw [process_calls, ih]
+
 end Ufw.Props.C06
